@@ -57,3 +57,31 @@ func fixtureAllFuncs(c *Ctx) map[*ssa.Function]bool {
 	}
 	return out
 }
+
+// requireFixtureAccepted: the rule must discharge (not report) the named negative fixture: a correct variant of
+// the positive one, so that the rule is shown to distinguish the two and not to reject the shape as such.
+func requireFixtureAccepted(r *Report, rule, want string, run func(c *Ctx, scratch *Report)) {
+	c, err := loadFixture()
+	key := "fixture-accepted:" + want
+	if err != nil {
+		r.Undecided(rule, key, "", "fixture could not be loaded: "+err.Error())
+		return
+	}
+	scratch := NewReport("fixture")
+	run(c, scratch)
+	found := false
+	for _, o := range scratch.Obls {
+		if o.Rule == rule && strings.Contains(o.Key, want) {
+			found = true
+			if o.Status != Discharged {
+				r.Undecided(rule, key, o.Pos, "the rule reports its negative fixture (a correct variant): "+o.Detail)
+				return
+			}
+		}
+	}
+	if !found {
+		r.Undecided(rule, key, "", "the rule did not look at its negative fixture")
+		return
+	}
+	r.OK(rule, key, "", "the rule accepts the correct variant of its positive fixture")
+}
